@@ -14,7 +14,7 @@ import (
 	"strings"
 	"testing"
 
-	sim "golang.org/x/perf/internal/verifsim"
+	sim "verif.local/sim"
 )
 
 func cfgString(res *Result) string {
